@@ -569,3 +569,79 @@ Fixpoint hist_eqb (a b : list (hap * nat)) : bool :=
   | (k, c) :: a', (k', c') :: b' => hap_eqb k k' && Nat.eqb c c' && hist_eqb a' b'
   | _, _ => false
   end.
+
+(* ============================================================================================ *)
+(* 7. Specification of ONE pairwise report, computed from the two tables of the pair only        *)
+(*    (no reference to other input files, to dict order or to the model of compare_pair)         *)
+(* ============================================================================================ *)
+Section PairSpec.
+Variable A : Type.                              (* alleles of one call: (bool*bool) or list Z *)
+Definition gcall := (Z * Z * bool * option (Z * A))%type.
+Definition g_same (a b : gcall) : bool :=
+  Z.eqb (fst (fst (fst a))) (fst (fst (fst b))) && Z.eqb (snd (fst (fst a))) (snd (fst (fst b))).
+(* variants heterozygous and phased in both files: (block id, alleles) of file 0 and of file 1 *)
+Definition both_phased (t0 t1 : list gcall) : list ((Z * A) * (Z * A)) :=
+  flat_map (fun c : gcall =>
+              match snd (fst c), snd c with
+              | true, Some x0 =>
+                  match find (g_same c) t1 with
+                  | Some d => match snd (fst d), snd d with
+                              | true, Some x1 => [(x0, x1)]
+                              | _, _ => []
+                              end
+                  | None => []
+                  end
+              | _, _ => []
+              end) t0.
+Fixpoint zz_dedupe (l : list (Z * Z)) : list (Z * Z) :=
+  match l with
+  | [] => []
+  | x :: t => if existsb (zz_eqb x) t then zz_dedupe t else x :: zz_dedupe t
+  end.
+(* the jointly phased blocks with at least two variants: per variant the alleles in file 0 and in file 1 *)
+Definition spec_blocks (t0 t1 : list gcall) : list (list (A * A)) :=
+  let rows := both_phased t0 t1 in
+  let key := fun r : (Z * A) * (Z * A) => (fst (fst r), fst (snd r)) in
+  filter (fun b => Nat.leb 2 (length b))
+         (map (fun k => map (fun r => (snd (fst r), snd (snd r))) (filter (fun r => zz_eqb (key r) k) rows))
+              (zz_dedupe (map key rows))).
+End PairSpec.
+Arguments spec_blocks {A} t0 t1.
+
+Definition list_max (l : list nat) : nat := fold_right Nat.max 0 l.
+
+(* diploid: (blocks, covered variants, assessed pairs, switches, hamming, longest length,
+             (switches, hamming) of every block of the longest length) *)
+Definition dip_block_spec (b : list ((bool * bool) * (bool * bool))) : nat * nat :=
+  let p0 := map (fun r => fst (fst r)) b in
+  let p1 := map (fun r => fst (snd r)) b in
+  ((if Nat.leb (length p0) 11
+    then match min_switches_bf p0 p1 with Some m => m | None => 0 end
+    else hamming (switch_encoding p0) (switch_encoding p1)),
+   Nat.min (hamming p0 p1) (hamming p0 (complement p1))).
+Definition pair_spec (t0 t1 : list call) : nat * nat * nat * nat * nat * nat * list (nat * nat) :=
+  let bs := spec_blocks t0 t1 in
+  let lens := map (@length _) bs in
+  let mx := list_max lens in
+  (length bs, fold_right Nat.add 0 lens, fold_right Nat.add 0 (map (fun n => n - 1) lens),
+   fold_right Nat.add 0 (map (fun b => fst (dip_block_spec b)) bs),
+   fold_right Nat.add 0 (map (fun b => snd (dip_block_spec b)) bs),
+   mx, map dip_block_spec (filter (fun b => Nat.eqb (length b) mx) bs)).
+
+(* polyploid (numerators): (blocks, covered, pairs, switches, hamming, sf cost, diff genotypes, longest length,
+                            (switches, hamming, sf cost, diff) of every block of the longest length) *)
+Definition poly_block_spec (k : nat) (b : list (list Z * list Z)) : N * N * N * nat :=
+  let e := compare_block_poly (map (fun j => map (fun r => nth j (fst r) 0%Z) b) (seq 0 k))
+                              (map (fun j => map (fun r => nth j (snd r) 0%Z) b) (seq 0 k)) in
+  (ppe_switches_num e, ppe_hamming_num e, ppe_sf_cost e, ppe_diff e).
+Definition nsum_list (l : list N) : N := fold_right N.add 0%N l.
+Definition pair_spec_poly (k : nat) (t0 t1 : list pcall)
+  : nat * nat * nat * N * N * N * nat * nat * list (N * N * N * nat) :=
+  let bs := spec_blocks t0 t1 in
+  let lens := map (@length _) bs in
+  let mx := list_max lens in
+  let es := map (poly_block_spec k) bs in
+  (length bs, fold_right Nat.add 0 lens, fold_right Nat.add 0 (map (fun n => n - 1) lens),
+   nsum_list (map (fun e => fst (fst (fst e))) es), nsum_list (map (fun e => snd (fst (fst e))) es),
+   nsum_list (map (fun e => snd (fst e)) es), fold_right Nat.add 0 (map (fun e => snd e) es),
+   mx, map (poly_block_spec k) (filter (fun b => Nat.eqb (length b) mx) bs)).
